@@ -191,6 +191,25 @@ def sub_this_to_var(inp, limit=128):
         defined += 1
         if s1 == 'undef' or not ev.same_value(v0, v1):
             raise Violation('this_to_var', f'value:{sem.shape(model)}', inp, f'value changes: {v0!r} -> {v1!r}\ninput:  {a}\nresult: {r}\nthis={e.this} vars={e.vars}')
+    # the same with a name that already occurs as an alias of another message: the current message and that message
+    # become one; replacing the variable back then yields the term with BOTH read from the current message
+    for alias in sorted(astx.message_aliases(a) - {n.variable for n in astx.preorder(a) if astx.cname(n) == 'HplQuantifier'})[:1]:
+        st, r2 = core.guarded(rw.replace_this_with_var, a, alias)
+        if st == 'exc':
+            if isinstance(r2, TypeError) and getattr(a, 'is_predicate', False):
+                continue  # two references of incompatible types may coincide (C14)
+            raise Violation('this_to_var', f'merge-raises:{core.exc_sig(r2)}', inp, f'replace_this_with_var({inp["text"]!r}, {alias!r}) raised {type(r2).__name__}: {str(r2)[:200]}')
+        want2 = mast.map_expr(model, lambda n: ('var', alias) if n == ('this',) else n)
+        if astx.to_model(r2) != want2:
+            raise Violation('this_to_var', f'merge-structure:{sem.shape(model)}', inp, f'replace_this_with_var(e, {alias!r}) is not e with the current message replaced by @{alias}:\ninput:  {a}\nresult: {r2}')
+        st, b2 = core.guarded(rw.replace_var_with_this, r2, alias)
+        if st == 'exc':
+            if isinstance(b2, TypeError) and getattr(a, 'is_predicate', False):
+                continue
+            raise Violation('this_to_var', f'merge-undo-raises:{core.exc_sig(b2)}', inp, f'replace_var_with_this of {r2} raised {type(b2).__name__}: {str(b2)[:200]}')
+        want3 = mast.map_expr(model, lambda n: ('this',) if n == ('var', alias) else n)
+        if astx.to_model(b2) != want3:
+            raise Violation('this_to_var', f'merge-undo:{sem.shape(model)}', inp, f'after replace_this_with_var(e, {alias!r}) the call replace_var_with_this(., {alias!r}) must read everything from the current message:\ninput:  {a}\nmerged: {r2}\nresult: {b2}')
     nt = _deep_or_repeated(model, lambda n: n == ('this',))
     return ('deep' if nt else 'shallow') if defined else 'never-defined'
 
